@@ -2,6 +2,7 @@ package lossy
 
 import (
 	"encoding/binary"
+	"fmt"
 	"sync"
 
 	"github.com/deepteams/webp/internal/bitio"
@@ -38,6 +39,18 @@ func (enc *VP8Encoder) emitFrame() ([]byte, error) {
 	}
 	enc.stats.HeaderSize = 10 + len(part0) // frame tag + pic header + partition 0
 	enc.stats.Residuals = tokenSize
+
+	// The frame tag holds the size of partition 0 in 19 bits and the partition
+	// table holds 24-bit sizes: a larger partition cannot be represented
+	// (libwebp reports VP8_ENC_ERROR_PARTITION0_OVERFLOW / PARTITION_OVERFLOW).
+	if len(part0) >= 1<<19 {
+		return nil, fmt.Errorf("vp8: partition 0 too large (%d bytes, limit %d)", len(part0), 1<<19-1)
+	}
+	for i := 0; i+1 < len(tokenParts); i++ {
+		if len(tokenParts[i]) >= 1<<24 {
+			return nil, fmt.Errorf("vp8: token partition %d too large (%d bytes, limit %d)", i, len(tokenParts[i]), 1<<24-1)
+		}
+	}
 
 	// Frame tag (3 bytes) + picture header (7 bytes for keyframe).
 	return enc.assembleFrame(part0, tokenParts), nil
